@@ -564,6 +564,10 @@ fn items02(tier: Tier) -> Vec<Item02> {
         }
         // tables of a million points and more
         v.push(Item02::Sinc { window: w, l: 512, cc: true, os: 2048 });
+        // an oversampling factor that is not a power of two (the documented example value)
+        if matches!(w, WindowFunction::BlackmanHarris2 | WindowFunction::Blackman) || !q {
+            v.push(Item02::Sinc { window: w, l: 128, cc: true, os: 160 });
+        }
         // cutoffs so low that the main lobe of the sinc is wider than the window
         if matches!(w, WindowFunction::BlackmanHarris2 | WindowFunction::Hann) || !q {
             v.push(Item02::SincCut { window: w, l: 64, os: 256, fc: 0.05 });
